@@ -161,11 +161,19 @@ def check(cx):
         if not ok_pass:
             return
         sel_poly = ret[3]
-        if not (isinstance(sel_poly, tuple) and sel_poly[0] == 'selv'):
-            rep.ob('dir', inst, False, 'no forward/backward split found', fn=inst, file=file, line=line,
-                   msg='evaluate() has no direction split on x vs last_evaluation: ' + term_str(sel_poly)[:200])
+        # the direction decision: the comparison of x with last_evaluation that guards the cursor update
+        # (wherever it sits: around the whole selection, or only around the cursor computation)
+        cands = []
+        scan_terms = [sel_poly] + ([tail2.start] if isinstance(tail2, SliceRef) else [])
+        for t0 in scan_terms:
+            for sub in subterms(t0):
+                if sub[0] in ('sel', 'selv') and dir_class(sub[1], x, L) in ('lt', 'le', 'gt', 'ge') and sub[1] not in cands:
+                    cands.append(sub[1])
+        if len(cands) != 1:
+            rep.ob('dir', inst, False, 'found %d comparisons of x with last_evaluation' % len(cands), fn=inst, file=file, line=line,
+                   msg='evaluate() has no single direction split on x vs last_evaluation: ' + term_str(sel_poly)[:200])
             return
-        C = sel_poly[1]
+        C = cands[0]
         dc = dir_class(C, x, L)
         fwd_when = True
         if dc in ('lt', 'le'):
@@ -261,11 +269,18 @@ def check(cx):
         else:
             ev = searches[0]
             sterm = subst_term(it.abstract(st, ev['base']), repl)
-            want_dom = ('stream', 'enumerate', ('stream', 'src', ('view', FS, ('ic', 0), t), ('str', 'ref')), ('ic', 0))
-            # searching the whole front is equivalent on sorted input: by (B) no k ≥ t has end_k ≤ x < L
-            want_dom2 = ('stream', 'enumerate', ('stream', 'src', ('view', FS, ('ic', 0), n1), ('str', 'ref')), ('ic', 0))
-            if sterm not in (want_dom, want_dom2):
-                probs.append('search domain is %s, expected enumerate(front[..t])' % term_str(sterm)[:200])
+            # the search domain, whatever adaptor chain produced it: strip enumerate, look at the slice view
+            dom = ev['base']
+            while isinstance(dom, Stream) and dom.kind == 'enumerate':
+                dom = dom.parts[0]
+            okd = False
+            if isinstance(dom, Stream) and dom.kind == 'src' and isinstance(dom.parts[0], SliceRef):
+                sl = dom.parts[0]
+                e_ = subst_term(sl.end, repl)
+                # searching the whole front is equivalent on sorted input: by (B) no k ≥ t has end_k ≤ x < L
+                okd = sl.root == front2.root and sl.path == front2.path and sl.start == ('ic', 0) and (e_ == t or e_ == n1 or NF()(e_).equals(NF()(t)))
+            if not okd:
+                probs.append('search domain is %s, expected front[..t]' % term_str(sterm)[:200])
             if not ev['rev']:
                 probs.append('search is not from the back (first match instead of last)')
             ivar = ev['ivar']
